@@ -653,13 +653,25 @@ def _inline_closures(node: ast.FunctionDef, changed: List[str]) -> None:
 
 
 # ------------------------------------------------------------------ optional steps
+def _always_exits(block: List[ast.stmt]) -> bool:
+    """every path through the block ends in return / raise / continue / break"""
+    if not block:
+        return False
+    last = block[-1]
+    if isinstance(last, (ast.Return, ast.Raise, ast.Continue, ast.Break)):
+        return True
+    if isinstance(last, ast.If) and last.orelse:
+        return _always_exits(last.body) and _always_exits(last.orelse)
+    return False
+
+
 def _guards_to_else(stmts: List[ast.stmt]) -> List[ast.stmt]:
     out = []
     for i, st in enumerate(stmts):
         for fld in ("body", "orelse", "finalbody"):
             if hasattr(st, fld) and isinstance(getattr(st, fld), list) and not isinstance(st, (ast.FunctionDef, ast.AsyncFunctionDef, ast.ClassDef)):
                 setattr(st, fld, _guards_to_else(getattr(st, fld)))
-        if isinstance(st, ast.If) and not st.orelse and st.body and isinstance(st.body[-1], (ast.Return, ast.Continue, ast.Raise)) and stmts[i + 1:]:
+        if isinstance(st, ast.If) and not st.orelse and st.body and _always_exits(st.body) and stmts[i + 1:]:
             rest = _guards_to_else(stmts[i + 1:])
             st.orelse = rest
             out.append(st)
